@@ -282,7 +282,12 @@ type Pair struct {
 	ClientNC, ServerNC *Conn
 }
 
-func NewPair(ccfg, scfg Config) (*Pair, error) {
+func NewPair(ccfg, scfg Config) (*Pair, error) { return NewPairHook(ccfg, scfg, nil) }
+
+// NewPairHook is NewPair with a hook that runs on the server endpoint right after Upgrade, before
+// the client has read the 101 response: what the server writes there reaches the client in the
+// same transport read as the response (a server that speaks first).
+func NewPairHook(ccfg, scfg Config, afterUpgrade func(server *websocket.Conn) error) (*Pair, error) {
 	p := &Pair{C2S: &bytes.Buffer{}, S2C: &bytes.Buffer{}}
 	p.ClientOut = &Sink{Pipe: p.C2S}
 	p.ServerOut = &Sink{Pipe: p.S2C}
@@ -302,6 +307,12 @@ func NewPair(ccfg, scfg Config) (*Pair, error) {
 		resp := p.ServerOut.Bytes(0)
 		p.HS.Response = resp
 		p.ServerSkip = len(resp)
+		if afterUpgrade != nil && upErr == nil && p.Server != nil {
+			if err := afterUpgrade(p.Server); err != nil {
+				upErr = err
+			}
+			resp = p.ServerOut.Bytes(0) // response + the frames the server already sent
+		}
 		p.S2C.Reset()
 		return resp
 	}}
